@@ -867,3 +867,14 @@ Proof.
   destruct (exp_split s3) as [e nexp] eqn:E4. apply exp_split_spec in E4.
   inversion H; subst. lia.
 Qed.
+
+(** * non-vacuity: the hypotheses hold on a concrete instance, and the success branch occurs:
+      ["[1]"] followed by an unread byte parses to a two-block tree with both blocks live. *)
+Lemma parse_safe_example :
+  strtod_ok strtod_ref /\ (3 <= length [91; 49; 93; 255])%nat /\
+  exists r t, cJSON_ParseWithLengthOpts strtod_ref never_fails [91; 49; 93; 255] 3 false = Ok r
+           /\ pr_tree r = Some t /\ pr_live r = 2 /\ blocks t = 2 /\ pr_end r = Some 3%nat.
+Proof.
+  split; [exact strtod_ref_ok|]. split; [cbn [length]; lia|].
+  eexists. eexists. split; [vm_compute; reflexivity|]. vm_compute. auto.
+Qed.
